@@ -15,6 +15,9 @@ class Run:
         self.ctx = ctx
         self.cfg = cfg
         mx.set_recalc(bool(cfg.get("recalc")))
+        # edits (renames, formula changes) can turn a terminating recursion into an endless one, which modelx rightly ends with
+        # its depth error - after 100 000 frames by default (16 s a time); generated chains are a few elements long
+        mx.set_recursion(int(cfg.get("recursion_limit", 400)))
         self.mach = machine.Machine(ctx.seed, cfg, name=name)
         self.oracles = oracles
         self.queries = []
